@@ -1,9 +1,9 @@
 (* C19 -- counted repetition and the raw combinators obey their stated bounds.
    Statements only; proofs in Proofs/RepSpec.v (on the reference interpreter) and, through the
    refinement theorem of C05, on the real parse path. Parse/check agreement is C03. *)
-From Coq Require Import List NArith.
-From PT Require Import Model.Base Model.Stack Model.Texpr Model.Sem Model.Aparse.
-From PT Require Import Proofs.StackInv Proofs.Refine Proofs.RepSpec.
+From Coq Require Import List NArith Arith.
+From PT Require Import Model.Base Model.Stack Model.Texpr Model.Sem Model.Aparse Model.LinesSpec.
+From PT Require Import Proofs.StackInv Proofs.Refine Proofs.RepSpec Proofs.BoundaryOps Proofs.RawCombinators.
 Import ListNotations.
 
 (* A bounded repetition, for every element expression, bounds, skip setting, input and stack:
@@ -60,6 +60,75 @@ Theorem C19_array : forall E fuel inh n e pos stk,
   end.
 Proof. exact aparse_arr. Qed.
 Print Assumptions C19_array.
+
+(* ---- pairs, optionals, skip-n-chars, the skip repetition: exactly the concatenation they denote ---------------- *)
+
+(* (T1, T2): first then second, nothing skipped in between; fails iff one of them fails *)
+Theorem C19_pair : forall E fuel inh a b pos stk,
+  match aparse E (S fuel) inh (TPair a b) pos stk with
+  | AOk (pos', t) stk' => exists p1 ta s1 tb, t = NPair ta tb /\
+        aparse E fuel inh a pos stk = AOk (p1, ta) s1 /\ aparse E fuel inh b p1 s1 = AOk (pos', tb) stk'
+  | AFail => aparse E fuel inh a pos stk = AFail \/
+      exists p1 ta s1, aparse E fuel inh a pos stk = AOk (p1, ta) s1 /\ aparse E fuel inh b p1 s1 = AFail
+  | APanic => aparse E fuel inh a pos stk = APanic \/
+      exists p1 ta s1, aparse E fuel inh a pos stk = AOk (p1, ta) s1 /\ aparse E fuel inh b p1 s1 = APanic
+  | AFuel => aparse E fuel inh a pos stk = AFuel \/
+      exists p1 ta s1, aparse E fuel inh a pos stk = AOk (p1, ta) s1 /\ aparse E fuel inh b p1 s1 = AFuel
+  end.
+Proof. exact aparse_pair_spec. Qed.
+Print Assumptions C19_pair.
+
+(* Option<T>: never fails; Some exactly when the operand matches; otherwise None with position and stack untouched *)
+Theorem C19_opt : forall E fuel inh e pos stk,
+  match aparse E (S fuel) inh (TOpt e) pos stk with
+  | AOk (pos', t) stk' =>
+      (exists t1, t = NOpt (Some t1) /\ aparse E fuel inh e pos stk = AOk (pos', t1) stk') \/
+      (t = NOpt None /\ pos' = pos /\ stk' = stk /\ aparse E fuel inh e pos stk = AFail)
+  | AFail => False
+  | APanic => aparse E fuel inh e pos stk = APanic
+  | AFuel => aparse E fuel inh e pos stk = AFuel
+  end.
+Proof. exact aparse_opt_spec. Qed.
+Print Assumptions C19_opt.
+
+(* SkipChar<N> on the REAL parse and check paths, for valid UTF-8: succeeds iff at least N characters remain, and then
+   consumes exactly the first N characters (their encoded length); otherwise fails consuming nothing *)
+Theorem C19_skip_chars : forall E fuel inh n pos st,
+  good_inp (e_inp E) -> good_cur (e_inp E) pos ->
+  exists m, valid_str m /\ i_get (e_inp E) pos = MOk (encode m) /\
+    tparse E (S fuel) inh (TSkipChars n) pos st =
+      (if n <=? length m then Ok (pos + length (encode (firstn n m)), NSpanned KSkipChar pos (pos + length (encode (firstn n m)))) st else Fail st) /\
+    tcheck E (S fuel) inh (TSkipChars n) pos st =
+      (if n <=? length m then Ok (pos + length (encode (firstn n m))) st else Fail st).
+Proof. exact tparse_skip_chars_utf8. Qed.
+Print Assumptions C19_skip_chars.
+
+(* AtomicRepeat (the skip repetition): never fails; the greedy run of consecutive matches, nothing skipped in between,
+   ending where the next attempt fails *)
+Theorem C19_atomic_rep : forall E fuel inh e pos stk,
+  match aparse E (S fuel) inh (TAtomicRep e) pos stk with
+  | AOk (pos', t) stk' => exists ts, t = NAtomicRep ts /\ length ts < fuel /\
+        chain (aparse E fuel) inh e (length ts) pos stk ts pos' stk' /\ aparse E fuel inh e pos' stk' = AFail
+  | AFail => False
+  | APanic => exists ts p s, length ts < fuel /\ chain (aparse E fuel) inh e (length ts) pos stk ts p s /\ aparse E fuel inh e p s = APanic
+  | AFuel => exists ts p s, chain (aparse E fuel) inh e (length ts) pos stk ts p s /\
+        (length ts = fuel \/ (length ts < fuel /\ aparse E fuel inh e p s = AFuel))
+  end.
+Proof. exact aparse_atomic_rep_spec. Qed.
+Print Assumptions C19_atomic_rep.
+
+(* ... and it records nothing with the tracker ("without tracking"), on the real path, for every environment *)
+Theorem C19_atomic_rep_silent : forall E fuel inh e pos st,
+  match tparse E fuel inh (TAtomicRep e) pos st with Ok _ st' => tr st' = tr st | Fail _ => False | _ => True end.
+Proof. exact tparse_atomic_rep_silent. Qed.
+Print Assumptions C19_atomic_rep_silent.
+
+(* transfer of any such characterisation to the real parse path (repaired code), through C05 *)
+Theorem C19_real_path : forall E, fixed E -> forall fuel inh e pos st gs p t st', SInv (stk st) gs ->
+  aparse E fuel inh e pos (cache (stk st)) <> APanic -> tparse E fuel inh e pos st = Ok (p, t) st' ->
+  aparse E fuel inh e pos (cache (stk st)) = AOk (p, t) (cache (stk st')) /\ SInv (stk st') gs.
+Proof. exact tparse_ok_aparse. Qed.
+Print Assumptions C19_real_path.
 
 (* the finding repaired by "fix: RepeatMinMax enforces MIN when the loop ends by reaching MAX" *)
 Theorem C19_refuted_before_fix :
